@@ -18,7 +18,7 @@ RULE = ("cases from rng(seed, 8, 0, i): relation = i mod 7 of " + ", ".join(RELS
         "distinct = fingerprint(spec, relation, K); non-trivial = the relation changed the representation (e.g. at least one quaternion negated / id changed) and the "
         "optimizer moved some vertex by > 1e-6.")
 REQ = ["eval:chi2-representation-invariant", "eval:result-representation-invariant"] + ["rel:" + r for r in RELS] + [
-    "class:info_cross_terms", "class:info_blockdiag", "class:negated_vertex_quat", "class:negated_measurement_quat", "class:negated_offset_quat", "class:run_to_convergence", "class:fix_first_pose=True", "class:fix_first_pose=False", "class:objects_reused_in_second_graph", "class:split_graph_through_file"]
+    "class:info_cross_terms", "class:info_blockdiag", "class:negated_vertex_quat", "class:negated_measurement_quat", "class:negated_offset_quat", "class:run_to_convergence", "class:fix_first_pose=True", "class:fix_first_pose=False", "class:objects_reused_in_second_graph", "class:rerepresented_graph_through_file"]
 PLAN = {
     "quick": {"cases": 1400, "soft_s": 90, "min_nontrivial": 400, "require": REQ},
     "thorough": {"cases": 56000, "soft_s": 1500, "min_nontrivial": 12000, "require": REQ},
@@ -200,25 +200,36 @@ def relation_check(ctx, rng, spec, rel, mode, cross, cond_max=1e8):
             ctx.count("class:objects_reused_in_second_graph")
         except Exception as ex:
             ctx.check("result-representation-invariant", False, dict(feats, variant="same objects re-listed in a second Graph", exception=type(ex).__name__), {"message": str(ex)[:300]}, case)
-    if rel == "split_edge" and changed and all(e["type"] == "odo" and e["est_kind"] in ("se2", "se3") for e in spec2["edges"]) and all(v["kind"] in ("se2", "se3") for v in spec2["vertices"]):
-        # the split graph through the file entry point: written and read back it is still the same physical graph (two identical half-information lines)
+    if rel in ("split_edge", "relabel_ids") and changed:
+        # the re-represented graph through the file entry point: the part of it that .g2o can express (SE(2)/SE(3) poses and the odometry edges among them)
+        # is written, read back, and must still be the same physical graph (same chi2 as that part of the original)
         import os
+        import shutil
         import tempfile
 
-        dtmp = tempfile.mkdtemp(prefix="c08-", dir=os.environ.get("VF_SCRATCH"))
-        try:
-            pth = os.path.join(dtmp, "split.g2o")
-            M.build(spec2).to_g2o(pth)
-            gl = M.Graph.from_g2o(pth)
-            with np.errstate(all="ignore"):
-                cl = float(gl.calc_chi2())
-            ctx.close("chi2-representation-invariant", cl, c * c0, max(c, 1.0) * bound * 4 + 1e-9 * abs(c0), dict(feats, variant="split graph written to .g2o and read back"),
-                      {"n_edges": [len(spec2["edges"]), len(gl._edges)]}, case)
-            ctx.count("class:split_graph_through_file")
-        finally:
-            import shutil
-
-            shutil.rmtree(dtmp, ignore_errors=True)
+        def expressible(sp):
+            keep = {v["id"] for v in sp["vertices"] if v["kind"] in ("se2", "se3")}
+            return {"vertices": [v for v in sp["vertices"] if v["id"] in keep],
+                    "edges": [e for e in sp["edges"] if e["type"] == "odo" and e["est_kind"] in ("se2", "se3") and all(j in keep for j in e["ids"])]}
+        sub0, sub2 = expressible(spec), expressible(spec2)
+        if sub2["edges"]:
+            dtmp = tempfile.mkdtemp(prefix="c08-", dir=os.environ.get("VF_SCRATCH"))
+            try:
+                pth = os.path.join(dtmp, "rep.g2o")
+                with np.errstate(all="ignore"):
+                    cs0 = float(M.build(sub0).calc_chi2())
+                    M.build(sub2).to_g2o(pth)
+                    try:
+                        gl = M.Graph.from_g2o(pth)
+                        cl = float(gl.calc_chi2())
+                        nl = len(gl._edges)
+                    except Exception as ex:
+                        cl, nl = float("nan"), type(ex).__name__
+                ctx.close("chi2-representation-invariant", cl, c * cs0, max(c, 1.0) * bound * 4 + 1e-9 * abs(cs0), dict(feats, variant="re-represented graph written to .g2o and read back"),
+                          {"n_edges": [len(sub2["edges"]), nl]}, case)
+                ctx.count("class:rerepresented_graph_through_file")
+            finally:
+                shutil.rmtree(dtmp, ignore_errors=True)
     return spec2, c, changed, c0, c1, worst, tol, moved
 
 
